@@ -29,3 +29,45 @@ def unit_print_all(twin=False):
     r.add("print_saturation_indices.resets_pr_in_in_its_phase_loop", DISCHARGED if "phases[i]->pr_in=false;" in t else FAILED, "syntactic", 0, "", kind="structural")
     r.assumptions += ["set_pr_in_false() clears pr_in of every phase (body not under contract)", "print_* blocks are observation only apart from this reset; `s_h2o->lm = s_h2o->la` is not examined"]
     return r
+
+
+def unit_lines_on_stop_path(twin=False):
+    """The line view is the string view split at newlines on EVERY return of a Run* entry point — also when the run is stopped by
+    an input or calculation error (IPhreeqcStop): the statements that fill OutputLines / LogLines / the selected-output lines are
+    reached on the path through the stop handler and the common tail, not only at the normal end of do_run."""
+    IPQ = "src/IPhreeqc.cpp"
+    import re
+    r = U.new_unit("C09.lines.refreshed_also_when_the_run_is_stopped", IPQ, "IPhreeqc::RunString", A.find_function(IPQ, "IPhreeqc::RunString"), kind="structural")
+    # which IPhreeqc methods split the strings into lines?
+    from vf import callsites as CS
+    splitters = set()
+    for qq, _ in CS.enclosing_functions(IPQ, "this->OutputLines.push_back("):
+        name = qq.split("::")[-1]
+        try:
+            fn = A.find_function(IPQ, "IPhreeqc::" + name)
+        except Exception:
+            continue
+        t = text_of(IPQ, fn)
+        if "this->OutputLines.push_back(" in t and "this->LogLines.push_back(" in t and "SelectedOutputLinesMap[" in t:
+            splitters.add(name)
+    r.add("reach.line_filling_code_found", DISCHARGED if splitters else UNDECIDED, "syntactic", 0, repr(sorted(splitters)), kind="vacuity")
+    for name in ("RunFile", "RunString", "RunAccumulated"):
+        fn = A.find_function(IPQ, "IPhreeqc::" + name)
+        body = A.body_of(fn).get("inner", [])
+        tries = [k for k, x in enumerate(body) if x.get("kind") == "CXXTryStmt"]
+        if not tries:
+            r.add("%s.has_try_block" % name, FAILED, "syntactic", 0, ""); continue
+        t = body[tries[-1]]
+        calls = []
+        for h in t.get("inner", [])[1:]:
+            var = h["inner"][0] if h.get("inner") else {}
+            q = var.get("type", {}).get("qualType", "") if var.get("kind") == "VarDecl" else ""
+            if "IPhreeqcStop" in q:
+                calls += [strip(y["inner"][0]).get("name") for y in A.walk(h["inner"][-1]) if y.get("kind") == "CXXMemberCallExpr"]
+        for x in body[tries[-1] + 1:]:
+            calls += [strip(y["inner"][0]).get("name") for y in A.walk(x) if y.get("kind") == "CXXMemberCallExpr"]
+        ok = any(c in splitters and c != "do_run" for c in calls) and not twin
+        r.add("%s.stop_path_fills_the_line_views" % name, DISCHARGED if ok else FAILED, "syntactic", 0,
+              "calls on the stop path: %r; line-filling methods: %r" % (calls, sorted(splitters)))
+    r.assumptions += ["error, warning and dump lines are refreshed by update_errors / the dump code on every path (not under this unit)"]
+    return r
